@@ -707,6 +707,8 @@ func (s *Server) handleRequest(req *dhcpv4.DHCPv4) (*dhcpv4.DHCPv4, error) {
 	s.leases[mac.String()] = lease
 	s.leasesMu.Unlock()
 
+	s.verifRequestGap()
+
 	// The client's circuit-ID changed (moved to another port, relay reconfigured):
 	// drop the index and fast path entries of the old circuit-ID, nothing else
 	// would ever remove them
